@@ -44,7 +44,9 @@ pub fn draw_keys(r: &mut Rng, utf8_only: bool, allow_huge: bool) -> Vec<Vec<u8>>
     }
     if allow_huge && r.chance(1, 12) {
         // a key larger than the 8 KiB write buffer (a hint entry then takes several writes)
-        pool.push(vec![b'H'; 9000]);
+        // ... or than 64 KiB, 1 MiB (sizes at which a per-entry limit of a reader would sit)
+        let n = *r.pick(&[9000usize, 9000, 9000, 65_504, 65_536, 70_000, 300_000, 1 << 20]);
+        pool.push(vec![b'H'; n]);
     }
     r.shuffle(&mut pool);
     let n = r.range(2, 9.min(pool.len() as u64)) as usize;
